@@ -89,6 +89,29 @@ func C10(c *core.Ctx) {
 	// design level: honest-link invariants on SM.tla (intended and as built)
 	c.MustTLC(core.TLCOpts{Module: "MC_SM", Cfg: "MC_SM_intended.cfg"})
 	c.MustTLC(core.TLCOpts{Module: "MC_SM", Cfg: "MC_SM_asbuilt_c10.cfg"})
+	// histories of any length: the counter discipline as an inductive invariant, discharged by Apalache (Lockstep.tla)
+	if c.Thorough() {
+		obligations := 0
+		for _, ob := range []struct {
+			args []string
+			want string
+		}{
+			{[]string{"--cinit=CInit", "--init=Init", "--inv=IndInv", "--length=0"}, "ok"},              // initiation
+			{[]string{"--cinit=CInit", "--init=IndInv", "--inv=IndInv", "--length=1"}, "ok"},           // consecution
+			{[]string{"--cinit=CInit", "--init=IndInv", "--inv=Lockstep", "--length=0"}, "ok"},         // IndInv => Lockstep
+			{[]string{"--cinit=CInit", "--init=IndInv", "--next=NextBroken", "--inv=IndInv", "--length=1"}, "violation"}, // not vacuous
+		} {
+			got, err := c.Apalache("Lockstep", ob.args...)
+			if err != nil {
+				core.Infra("C10: %v", err)
+			}
+			if got != ob.want {
+				core.Infra("C10: apalache Lockstep %v: %s, expected %s", ob.args, got, ob.want)
+			}
+			obligations++
+		}
+		c.Extra["apalache_obligations_discharged"] = obligations
+	}
 
 	// structure table
 	var rows []smCmdRow
